@@ -1,5 +1,6 @@
 import FlVerif.Op.Settings
 import FlVerif.Gen.Tables
+import FlVerif.Lemmas.CodeSettings
 
 /-! # C20 — Temporary settings are always restored
 
@@ -13,6 +14,21 @@ open Op.Settings
     `Settings.context`) -/
 theorem keys_table : Gen.Tables.settingsContextKeys =
     ["float_type", "decimals", "atol", "rtol", "alias", "logger", "factory_manager"] := by decide
+
+/-- **Tie A (code → model).**  `Gen.Code.Settings_context_enter` / `Settings_context_exit` are regenerated from the
+    source of `Settings.context` on every run (`fv/pylean.py`: the statements before the `yield` and the `finally`
+    block; keys are parameter / attribute indices, `lift` embeds a store of the model, where no value is `None`).
+    Entering from the store `s` leaves `setAll s (contextSettings kwargs)`; when the body of the `with` block ends -
+    normally or by an exception - with the store `s'`, the `finally` block leaves
+    `restore s' s (contextSettings kwargs)`: exactly the `ctx` case of `Op.Settings.run`. -/
+theorem code_context (kwargs : List (Key × Option Val)) (s s' : Store) :
+    ∃ σ, Gen.Code.Settings_context_enter.run kwargs (lift s) {} = .ok σ ∧
+      σ.store = lift (setAll s (contextSettings kwargs)) ∧
+      ∃ τ, Gen.Code.Settings_context_exit.run
+          { context_settings := σ.context_settings, rollback_settings := σ.rollback_settings,
+            key := σ.key, value := σ.value, store := lift s' } = .ok τ ∧
+        τ.store = lift (restore s' s (contextSettings kwargs)) :=
+  Op.Settings.code_context kwargs s s'
 
 theorem namedB_iff (kvs : List (Key × Val)) (k : Key) : namedB kvs k = true ↔ named kvs k := by
   unfold namedB named
